@@ -5,13 +5,17 @@ package gocvinputdefaults
 // gocv contracts for this probe only (/verif/probes/inputdefaults, copied into the scratch copy of the repository
 // before generation; nullable_input_omittable: true). The expectations below are the probe schema's input-field
 // defaults written out by hand:
-//   input EchoInput  { limit: Int = 7, tag: String = "dflt", note: String }   (all Omittable in Go)
+//   input EchoInput  { limit: Int = 7, tag: String = "dflt", note: String, tags: [String!] = [], nums: [Int!] = [1, 2], opts: PlainInput = {} }   (all Omittable in Go)
 //   input PlainInput { size: Int! = 5, label: String }
 // C02: an input field the client omitted takes its schema default - whether or not the Go field is an Omittable.
 //@ func (*executionContext).unmarshalInputEchoInput [C02]
 //@   at! `assign asMap["limit"]` requires rhs0 == 7
 //@   at! `assign asMap["tag"]` requires rhs0 == "dflt"
 //@   at? `assign asMap["note"]` requires false
+// an empty list / empty object default is an empty list / object, not null (seeded change C02i)
+//@   at! `assign asMap["tags"]` requires rhs0 != nil
+//@   at! `assign asMap["nums"]` requires rhs0 != nil
+//@   at! `assign asMap["opts"]` requires rhs0 != nil
 //@ func (*executionContext).unmarshalInputPlainInput [C02]
 //@   at! `assign asMap["size"]` requires rhs0 == 5
 //@   at? `assign asMap["label"]` requires false
